@@ -504,7 +504,9 @@ class Own(Interp):
             if d == "zip":
                 return OV([F], elems=TupleV([(self.to_ov(a).elems if self.to_ov(a).elems is not None else elem_of(self.to_ov(a))) for a in pos]))
             if d.startswith("itertools."):
-                return OV([F], elems=OV([F], elems=a0.elems if a0.elems is not None else elem_of(a0)))
+                # tuples of elements of the argument(s); the elements of an immutable sequence (range(n)) are integers
+                inner = a0.elems if a0.elems is not None else (IMMV if a0.labels == {IMM} else elem_of(a0))
+                return OV([F], elems=OV([F], elems=inner))
             return OV([F], elems=a0.elems if a0.elems is not None else (elem_of(a0) if caller_owned(a0.labels) else None),
                       kind="arr")
         if d in ("list", "set", "dict", "frozenset") and not pos:
